@@ -21,6 +21,29 @@ class Monitor(object):
         self.prev_t = None
         self.expected_next = None
         self.nrec = 0
+        self.pre_ib = {}
+        self.kf_resume_blocked = False   # history marker of a known finding (see KNOWN_FINDINGS.json)
+
+    def on_pre_event(self, node, et):
+        # customers that are interrupted by a pre-emptive 'resume' schedule while still blocked
+        self.pre_ib = {}
+        for nd in self.hub.Q.transitive_nodes:
+            if nd.schedule is not None and nd.schedule.preemption == "resume":
+                ids = [i.id_number for i in nd.all_individuals if i.is_blocked]
+                if ids:
+                    self.pre_ib[nd.id_number] = ids
+
+    def _mark_history(self, Q):
+        for nid, ids in self.pre_ib.items():
+            nd = Q.nodes[nid]
+            for ind in nd.all_individuals:
+                if ind.id_number in ids and not ind.interrupted and not ind.is_blocked and ind.server:
+                    self.kf_resume_blocked = True
+        self.pre_ib = {}
+
+    def violate(self, clause, detail):
+        detail["after_resume_restart_of_blocked_interrupted_customer"] = self.kf_resume_blocked
+        self.hub.violate("C02", clause, detail)
 
     # -- helpers --------------------------------------------------------------------------------
     def eq(self, a, b):
@@ -43,44 +66,59 @@ class Monitor(object):
     def on_boundary(self, Q):
         hub = self.hub
         now = Q.current_time
+        self._mark_history(Q)
         if self.prev_t is not None and now < self.prev_t:
-            hub.violate("C02", "clock_went_back", {"from": self.prev_t, "to": now, "event": hub.cur_event})
+            self.violate("clock_went_back", {"from": self.prev_t, "to": now, "event": hub.cur_event})
         if self.expected_next is not None and not self.eq(now, self.expected_next):
-            hub.violate("C02", "event_not_at_scheduled_date", {"scheduled_min": self.expected_next, "executed_at": now})
+            self.violate("event_not_at_scheduled_date", {"scheduled_min": self.expected_next, "executed_at": now})
         self.prev_t = now
         self.expected_next = self._min_pending(Q)
         # nothing scheduled in the past
         for nd in Q.active_nodes:
             if nd.next_event_date < now and not self.eq(nd.next_event_date, now):
-                hub.violate("C02", "scheduled_in_past", {"what": "node.next_event_date", "node": getattr(nd, "id_number", 0),
+                self.violate("scheduled_in_past", {"what": "node.next_event_date", "node": getattr(nd, "id_number", 0),
                                                          "type": getattr(nd, "next_event_type", "arrival"),
                                                          "date": nd.next_event_date, "now": now})
         an = Q.nodes[0]
         for n_id, row in an.event_dates_dict.items():
             for cl, d in row.items():
                 if d < now and not self.eq(d, now):
-                    hub.violate("C02", "scheduled_in_past", {"what": "arrival", "node": n_id, "class": cl, "date": d, "now": now})
+                    self.violate("scheduled_in_past", {"what": "arrival", "node": n_id, "class": cl, "date": d, "now": now})
         for nd in Q.transitive_nodes:
             ps = hasattr(nd, "ps_capacity")
+            finite = (not ps) and (not isinf(nd.c)) and (not nd.slotted)
+            if finite:
+                # pending end-of-service events are the servers' dates (server-side view; a customer interrupted by
+                # a shift end may legitimately keep a stale reference to a dismissed server)
+                held = set()
+                for srv in nd.servers:
+                    d = srv.next_end_service_date
+                    if srv.cust:
+                        held.add(srv.cust.id_number)
+                    if d < now and not self.eq(d, now):
+                        self.violate("scheduled_in_past", {"what": "server.next_end_service_date", "node": nd.id_number,
+                                                            "server": srv.id_number, "date": d, "now": now})
             for ind in nd.all_individuals:
-                insvc = ind.with_server if ps else (ind.server if not isinf(nd.c) else True)
-                if insvc and not ind.is_blocked and not ind.interrupted:
-                    d = ind.service_end_date
-                    if d is not False and d < now and not self.eq(d, now):
-                        hub.violate("C02", "scheduled_in_past", {"what": "service_end_date", "node": nd.id_number,
-                                                                 "id": ind.id_number, "date": d, "now": now})
-                if not insvc and not ps and not isinf(nd.c):
+                if finite:
+                    insvc = ind.id_number in held
+                else:
+                    insvc = ind.with_server if ps else (ind.server if not isinf(nd.c) else True)
+                    if insvc and not ind.is_blocked and not ind.interrupted:
+                        d = ind.service_end_date
+                        if d is not False and d < now and not self.eq(d, now):
+                            self.violate("scheduled_in_past", {"what": "service_end_date", "node": nd.id_number,
+                                                                "id": ind.id_number, "date": d, "now": now})
+                if not insvc and finite and not ind.server:
                     if nd.reneging:
                         d = getattr(ind, "reneging_date", None)
                         if d is not None and d < now and not self.eq(d, now):
-                            hub.violate("C02", "scheduled_in_past", {"what": "reneging_date", "node": nd.id_number,
-                                                                     "id": ind.id_number, "date": d, "now": now,
-                                                                     "was_interrupted": any(r.record_type == "interrupted service" and r.arrival_date == ind.arrival_date for r in ind.data_records)})
+                            self.violate("scheduled_in_past", {"what": "reneging_date", "node": nd.id_number,
+                                                                "id": ind.id_number, "date": d, "now": now})
                     if nd.dynamic_classes:
                         d = getattr(ind, "class_change_date", None)
                         if d is not None and d < now and not self.eq(d, now):
-                            hub.violate("C02", "scheduled_in_past", {"what": "class_change_date", "node": nd.id_number,
-                                                                     "id": ind.id_number, "date": d, "now": now})
+                            self.violate("scheduled_in_past", {"what": "class_change_date", "node": nd.id_number,
+                                                                "id": ind.id_number, "date": d, "now": now})
         for ind, r in hub.new_records():
             self.record(r, now)
 
@@ -112,8 +150,10 @@ class Monitor(object):
                 bad = "exit_date_ne_clock"
             elif not (isnum(r.waiting_time) and self.eq(r.waiting_time, s - a)):
                 bad = "durations_ne_differences"
-            elif not (isnum(r.service_time) and self.le(x - s, r.service_time) and r.service_time >= 0):
-                bad = "interrupted_after_intended_end"
+            elif not (isnum(r.service_time) and r.service_time >= 0):
+                # (no upper bound on exit - start: a customer that is blocked when a pre-emptive shift ends is
+                #  legitimately interrupted after its intended end of service - pinned by the repository's suite)
+                bad = "interrupted_service_time_negative"
         elif t == "renege":
             if not (isnum(a) and isnum(x)):
                 bad = "date_fields_not_numbers"
@@ -131,7 +171,7 @@ class Monitor(object):
         else:
             bad = "unknown_record_type"
         if bad:
-            hub.violate("C02", bad, {"record_type": t, "node": r.node, "id": r.id_number, "now": now,
+            self.violate(bad, {"record_type": t, "node": r.node, "id": r.id_number, "now": now,
                                      "record": [hub_js(v) for v in r]})
 
     def on_end(self, Q, status, exc):
